@@ -838,14 +838,19 @@ class IteratorQueue(IterableQueue[_ValueT]):
       self._stop_enqueue()
       raise e
     while not self.enqueue_done:
+      fetched = False
       try:
-        self.put(next(iterator))
+        value = next(iterator)
+        fetched = True
+        self.put(value)
       except StopIteration as e:
         self._stop_enqueue(*e.args)
         return
       except Exception as e:  # pylint: disable=broad-exception-caught
         # Need to go pass this exception assuming the iterator can skip error.
-        if self.ignore_error:
+        # A failed put(), e.g., a timeout, is no error of the iterator: the
+        # element it holds would be lost.
+        if self.ignore_error and not fetched:
           logging.exception(
               'chainable: %s',
               f'"{self.name}" enqueue error ignored, stacktrace:',
